@@ -415,6 +415,6 @@ ASSUMPTIONS = ["SIGINT is delivered from handler registration onward (before tha
 
 
 def main(tier):
-    n = 120 if tier == "quick" else 500
+    n = 240 if tier == "quick" else 500
     cap = 400 if tier == "quick" else 1500
     return engine.run_check(PROP, "c18", tier, n, cap, "fault_enumeration", RULE, ASSUMPTIONS)
